@@ -232,7 +232,8 @@ def rust_support(variants, lay, tw):
     o.append("pub fn reg_eq(a: &Reg, b: &Reg) -> bool { match (a, b) { (Reg::Top, Reg::Top) => true, (Reg::Offset(x), Reg::Offset(y)) => x == y, _ => false } }")
     o.append("pub fn is_top(r: &Reg) -> bool { matches!(r, Reg::Top) }")
     # any_instr
-    o.append("pub fn any_instr() -> Instr {\n    let k: u8 = kani::any();\n    kani::assume((k as u16) < N_OPCODES);\n    match k {")
+    o.append("/// opcode k (CONCRETE k in every harness: a symbolic discriminant over %d variants costs CBMC minutes and gigabytes)\n"
+             "/// with fully symbolic operands\npub fn mk_instr(k: u8) -> Instr {\n    match k {" % len(names))
     for k, n in enumerate(names):
         info = variants[n]
         if not info['fields']:
@@ -242,7 +243,7 @@ def rust_support(variants, lay, tw):
         else:
             c = 'Instr::%s(%s)' % (n, ', '.join(_any(t) for _, t in info['fields']))
         o.append("        %d => %s," % (k, c))
-    o.append("        _ => unreachable!(),\n    }\n}")
+    o.append("        _ => panic!(\"mk_instr: no such opcode\"),\n    }\n}")
     # opcode
     o.append("pub fn opcode(i: &Instr) -> u16 {\n    match i {")
     for k, n in enumerate(names):
